@@ -330,6 +330,10 @@ def multi_cases(run):
         {"i": 2, "base": 0o1000, "img": payload(rnd, "rand", 4), "directives": [("make_bin", "a.bin", None), ("make_bin", "b.bin", None), ("make_raw", "c.raw", None)]},
         {"i": 3, "base": 0o1000, "img": payload(rnd, "rand", 6), "directives": [], "second": "\t.byte 1, 2\n", "args": ["--implicit-bin"], "implicit": "main.bin"},
         {"i": 4, "base": 0o1000, "img": payload(rnd, "rand", 4), "directives": [], "second": "\t.word 5\n", "args": ["-o", "both.bin"], "implicit": "both.bin"},
+        # the '.bin' suffix of '-o' selects the bin container whatever its letter case (pinned: DESIGN 3.6 only says "-o x.bin => bin")
+        {"i": 5, "base": 0o2000, "img": payload(rnd, "rand", 7), "directives": [], "args": ["-o", "PROG.BIN"], "implicit": "PROG.BIN"},
+        {"i": 6, "base": 0o1000, "img": payload(rnd, "rand", 5), "directives": [], "args": ["-o", "Mixed.Bin"], "implicit": "Mixed.Bin"},
+        {"i": 7, "base": 0o1000, "img": payload(rnd, "rand", 5), "directives": [("make_wav", "empty.wav", ""), ("make_turbo_wav", "tempty.wav", "")]},
     ]
 
 
